@@ -16,7 +16,11 @@ SUBJECTS = {
     's2': (None, 'urn:sp', TRANSIENT, None, 'subject-x'),
     's3': (None, None, PERSISTENT, None, 'subject-x'),
     's4': ('urn:idp', 'urn:sp', PERSISTENT, None, 'subject-x'),
+    # a pair whose storage keys would coincide if separators inside field values were not escaped
+    's5': ('q', 'r', None, None, 'subject-x'),
+    's6': ('q,1=r', None, None, None, 'subject-x'),
 }
+SPELL = ('int', 'str', 'struct')      # how the caller spells an expiry: seconds, SAML instant, struct_time
 SOURCES = ('idp1', 'idp2')
 INFOS = {
     'k0': {'ava': {'a': ['1'], 'b': ['x']}},
@@ -96,7 +100,11 @@ def apply_op(w, op):
     if k == 'set':
         _k, s, src, ik, off = op
         exp = env.BASE + off
-        w.cache.set(nid(SUBJECTS[s]), src, info_for(ik, s), exp)
+        # the spelling of the expiry is a function of the operation (all three are accepted by the cache)
+        import zlib
+        how = SPELL[zlib.crc32(repr(op).encode()) % 3]
+        arg = exp if how == 'int' else (env._real_strftime('%Y-%m-%dT%H:%M:%SZ', env._real_gmtime(exp)) if how == 'str' else env._real_gmtime(exp))
+        w.cache.set(nid(SUBJECTS[s]), src, info_for(ik, s), arg)
         ref.setdefault(s, {})[src] = (exp, ik)
     elif k == 'add':      # through Population, as the client does on login
         _k, s, src, ik, off = op
@@ -260,6 +268,28 @@ def compare(obs, exp):
     return bad
 
 
+def many_subjects(n):
+    """A subject with one valid and one expired source in a cache that then receives n other subjects: its answers
+    still follow the reference."""
+    from saml2_tophat.saml import NameID
+    with env.in_zone('UTC'):
+        w = World('memory')
+        for op in (('set', 's1', 'idp1', 'k0', 20), ('set', 's1', 'idp2', 'k1', -10), ('set', 's2', 'idp1', 'k1', 20), ('reset', 's2', 'idp2')):
+            apply_op(w, op)
+        for i in range(n):
+            w.cache.set(NameID(text='many-%d' % i, format=PERSISTENT, sp_name_qualifier='urn:sp'), 'idp1', {'ava': {'a': [str(i)]}}, env.BASE + 1000)
+        obs = [(q, v) for q, v in observe(w) if q[0] != 'subjects']
+        exp = [(q, v) for q, v in expected(w) if q[0] != 'subjects']
+        bad = compare(obs, exp)
+        try:
+            listed = len(list(w.cache.subjects()))
+        except Exception:
+            listed = -1
+        if not bad and listed != n + 2:
+            bad = [('subjects-listing-count-%d-instead-of-%d' % (listed, n + 2), ('subjects',))]
+    return n, sorted(set((b[0], str(b[1])) for b in bad))[:6]
+
+
 def canon(w):
     return repr((sorted((k, sorted(v.items())) for k, v in w.ref.db.items()), env.Clock.now - env.BASE))
 
@@ -339,20 +369,7 @@ def _expand(hist):
     return kids, viol, len(ops)
 
 
-def run(ctx):
-    CFG['tmp'] = ctx.tmp
-    if os.path.isdir('/dev/shm') and os.access('/dev/shm', os.W_OK):
-        import tempfile, atexit, shutil
-        CFG['tmp'] = tempfile.mkdtemp(prefix='vp-c19-', dir='/dev/shm')
-        atexit.register(shutil.rmtree, CFG['tmp'], True)
-    CFG['subjects'] = ('s1', 's2', 's3') if not ctx.thorough else ('s1', 's2', 's3', 's4')
-    CFG['expiries'] = EXPIRIES
-    CFG['shelve'] = True
-    CFG['nodedup'] = 2
-    CFG['shelve_depth'] = 2 if not ctx.thorough else 3
-    CFG['reopen'] = ctx.thorough
-    depth = 3 if not ctx.thorough else 4
-    max_states = 4000 if not ctx.thorough else 20000
+def bfs(ctx, depth, max_states):
     w0, _ = run_history([])
     seen = {canon(w0): []}
     frontier = [[]]
@@ -384,16 +401,47 @@ def run(ctx):
             ctx.cap('state cap %d reached after depth %d' % (max_states, d + 1))
             capped = True
             break
+    return seen, transitions, by_depth, capped, samples, frontier
+
+
+def run(ctx):
+    CFG['tmp'] = ctx.tmp
+    if os.path.isdir('/dev/shm') and os.access('/dev/shm', os.W_OK):
+        import tempfile, atexit, shutil
+        CFG['tmp'] = tempfile.mkdtemp(prefix='vp-c19-', dir='/dev/shm')
+        atexit.register(shutil.rmtree, CFG['tmp'], True)
+    CFG['subjects'] = ('s1', 's2', 's3') if not ctx.thorough else ('s1', 's2', 's3', 's4')
+    CFG['expiries'] = EXPIRIES
+    CFG['shelve'] = True
+    CFG['nodedup'] = 2
+    CFG['shelve_depth'] = 2 if not ctx.thorough else 3
+    CFG['reopen'] = ctx.thorough
+    depth = 3 if not ctx.thorough else 4
+    max_states = 4000 if not ctx.thorough else 20000
+    seen, transitions, by_depth, capped, samples, frontier = bfs(ctx, depth, max_states)
+    # second pass: the pair of subjects whose keys would collide without escaping (with s1 for company)
+    main_subjects = CFG['subjects']
+    CFG['subjects'] = ('s5', 's6')
+    seen2, tr2, by2, _cap2, _s2, _f2 = bfs(ctx, 3, 10 ** 9)
+    CFG['subjects'] = main_subjects
+    transitions += tr2
+    w0, _ = run_history([])
+    # a cache holding many subjects
+    n_many = 0
+    for n_, bad in ctx.pmap(many_subjects, [5, 999, 1001, 1100, 2100, 5000], chunksize=1):
+        n_many += 1
+        for kind, q in bad[:3]:
+            ctx.violation({'kind': 'many-subjects', 'why': kind, 'query': q, 'count': n_}, {})
     return {
         'level': 'model_checking',
         'coverage': {
-            'states': len(seen), 'transitions': transitions, 'traces_validated_against_impl': transitions,
+            'states': len(seen) + len(seen2), 'states_collision_pair_pass': len(seen2), 'many_subject_cases': n_many, 'transitions': transitions, 'traces_validated_against_impl': transitions,
             'samples': [{'history': s} for s in samples[:3]] or [{'history': []}], 'exhaustive': not capped,
             'max_depth': depth, 'states_by_depth': by_depth, 'frontier_at_bound': len(frontier),
             'queries_per_state': len(observe(w0)),
             'alphabet': {'subjects': {s: SUBJECTS[s] for s in CFG['subjects']}, 'sources': SOURCES, 'infos': sorted(INFOS),
                          'expiry_offsets': EXPIRIES, 'tick': TICK},
-            'rule': 'BFS over histories of set/add(Population)/tick/reset/delete on a fresh real Cache (memory) and the same history on the shelve-backed Cache%s (quick: every history of length <= 2; thorough: length <= 3); after every step %d queries (get, active, get_identity with entity lists, entities, stale sources, subjects; with and without expiry checking) are compared with a reference dict under the virtual clock and between the two back-ends; states merged by (reference content, clock) from depth 3 on (histories of length <= 2 are all kept distinct, so that implementation state the reference does not have - caches, memos - is exposed by their futures)' % (' reopened between steps' if ctx.thorough else '', len(observe(w0))),
+            'rule': 'a cache that receives 5 / 999 / 1001 / 1100 / 2100 / 5000 further subjects while one subject has a valid and an expired source; a second BFS pass (depth 3) over two subjects whose storage keys would coincide without escaping of separators; expiries passed as seconds / SAML instant / struct_time (a function of the operation); BFS over histories of set/add(Population)/tick/reset/delete on a fresh real Cache (memory) and the same history on the shelve-backed Cache%s (quick: every history of length <= 2; thorough: length <= 3); after every step %d queries (get, active, get_identity with entity lists, entities, stale sources, subjects; with and without expiry checking) are compared with a reference dict under the virtual clock and between the two back-ends; states merged by (reference content, clock) from depth 3 on (histories of length <= 2 are all kept distinct, so that implementation state the reference does not have - caches, memos - is exposed by their futures)' % (' reopened between steps' if ctx.thorough else '', len(observe(w0))),
         },
         'assumptions': ['every history is evaluated in a process time zone (UTC, UTC+5, UTC-5) chosen as a function of the history: results must not depend on it',
                         'expiry exactly at now counts as not yet passed (the quantifier lists before/at/after); expiry 0 with non-empty info is not generated',
@@ -403,7 +451,10 @@ def run(ctx):
 
 def replay(ctx, w):
     CFG['tmp'] = ctx.tmp
-    CFG['subjects'] = ('s1', 's2', 's3', 's4')
+    if w.get('kind') == 'many-subjects':
+        n_, bad = many_subjects(w['count'])
+        return {'violation': bool(bad), 'why': bad}
+    CFG['subjects'] = ('s1', 's2', 's3', 's4', 's5', 's6')
     CFG['expiries'] = EXPIRIES
     CFG['shelve'] = True
     CFG['reopen'] = False
